@@ -1131,7 +1131,14 @@ class C20(Prop):
         return [case_line('sD15', g, inputs_all(2, [53]))]
 
     title = 'parsing is total'
-    bins = ALL.bins
+    bins = ALL.bins + ['h_deep']
+
+    def custom_run(self, lines, tier, seed, jobs):
+        import vcheck
+        tot, fails = vcheck.run_cases(self.name, lines, jobs=jobs, timeout=900 if tier == 'quick' else 3600)
+        # "no stack exhaustion": recursion and Pratt operator chains nested 10^5 deep on a 512 KiB thread (runtime evidence)
+        deep_probes(self, tot, fails, tier, jobs)
+        return tot, fails
     rule = ('union of all streams (C01, repetition incl. nullable items, emitters, recovery, decorations, context, state, four error '
             'kinds) on exhaustive small inputs, plus malformed inputs: random strings over the full Unicode range incl. combining marks, '
             'surrogate-adjacent and 4-byte characters, long inputs; every case under catch_unwind and a wall-clock watchdog; '
@@ -1490,6 +1497,28 @@ def _deep_worker(args):
         return probe, depth, mode, -9, '', 'timeout'
 
 
+def deep_probes(prop, tot, fails, tier, jobs):
+    """every recursion site goes through the stack-growing guard: a parser nested 10^5 (thorough: 10^6) levels deep returns on a
+    512 KiB thread; an unguarded site overflows the stack and kills the probe process"""
+    import multiprocessing
+    depths = [1000, 100000] if tier == 'quick' else [1000, 100000, 1000000]
+    jobsl = [(pr, d, m) for pr in ('parens', 'mutual', 'pratt_prefix', 'pratt_postfix', 'pratt_infixr', 'pratt_infixl',
+                                   'parens_boxed', 'parens_rc', 'mutual_boxed', 'declared_boxed', 'pratt_parens')
+             for d in depths for m in ('parse', 'check')]
+    with multiprocessing.Pool(min(jobs, 8)) as pool:
+        res = pool.map(_deep_worker, jobsl)
+    for probe, depth, mode, rc, out, err in res:
+        tot['pairs'] += 1
+        tot['nontrivial'] += 1
+        want = f'ok {probe} {depth} ' + (f'Some({depth})' if mode == 'parse' else 'accepted=true')
+        key = 'deep:ok' if out == want else 'deep:FAIL'
+        tot['outcomes'][key] = tot['outcomes'].get(key, 0) + 1
+        if out != want:
+            tot['pred_fail'] += 1
+            prop.fail(tot, fails, 'pred', None, 0,
+                      f'DEEP-NESTING probe {probe} depth {depth} ({mode}) on a 512 KiB stack: exit status {rc}, output {out!r} {err!r}; expected {want!r}')
+
+
 class C12(Prop):
     name = 'C12'; module = 'C12'; claimed = True
     bins = ['h_str_rich', 'h_slice_rich', 'h_deep']
@@ -1499,22 +1528,7 @@ class C12(Prop):
         tot, fails = vcheck.run_cases(self.name, lines, jobs=jobs, timeout=900 if tier == 'quick' else 3600)
         # runtime part (supporting evidence, not a theorem): every recursion site goes through the stack-growing guard, so a
         # parser nested 10^5 (thorough: 10^6) levels deep returns on a 512 KiB thread; an unguarded site overflows and kills the probe
-        depths = [1000, 100000] if tier == 'quick' else [1000, 100000, 1000000]
-        jobsl = [(pr, d, m) for pr in ('parens', 'mutual', 'pratt_prefix', 'pratt_postfix', 'pratt_infixr', 'pratt_infixl',
-                                       'parens_boxed', 'parens_rc', 'mutual_boxed', 'declared_boxed', 'pratt_parens')
-                 for d in depths for m in ('parse', 'check')]
-        with multiprocessing.Pool(min(jobs, 8)) as pool:
-            res = pool.map(_deep_worker, jobsl)
-        for probe, depth, mode, rc, out, err in res:
-            tot['pairs'] += 1
-            tot['nontrivial'] += 1
-            want = f'ok {probe} {depth} ' + (f'Some({depth})' if mode == 'parse' else 'accepted=true')
-            key = 'deep:ok' if out == want else 'deep:FAIL'
-            tot['outcomes'][key] = tot['outcomes'].get(key, 0) + 1
-            if out != want:
-                tot['pred_fail'] += 1
-                self.fail(tot, fails, 'pred', None, 0,
-                          f'DEEP-NESTING probe {probe} depth {depth} ({mode}) on a 512 KiB stack: exit status {rc}, output {out!r} {err!r}; expected {want!r}')
+        deep_probes(self, tot, fails, tier, jobs)
         return tot, fails
 
     title = 'recursive parsers equal their unrolling and nest to any depth'
